@@ -228,6 +228,12 @@ class OrderAnalysis:
                     if self._caller_order(ct):
                         self.event("POS", n, f"'{unparse(n)[:60]}' differences neighbouring STORED {self.dim} values of caller-ordered data "
                                              f"({self._show(ct)}): spacing / circularity derived from it is wrong unless the caller stored them ascending")
+                elif isinstance(base, ast.Name) and base.id in ("dir", "dirs", self.dim) and self.env.get(base.id) is not None and self._caller_order(self.env.get(base.id)):
+                    # np.diff(dir) on the caller-supplied direction array of a numpy-level kernel: the SIGNED stored differences (negative for descending
+                    # or rolled storage) - a width or a sign derived from them depends on the stored order
+                    self.checked += 1
+                    self.event("POS", n, f"'{unparse(n)[:60]}' takes the signed differences of the caller-supplied direction array in stored order: their "
+                                         "mean / sign is negative for descending or rolled storage (use the circular difference of two elements)")
             if isinstance(n, ast.Subscript):
                 # X.dir[k] / X[dim][k] / dirs[k] with constant k
                 ct = self.coord_of(n.value)
